@@ -346,8 +346,6 @@ class MTree:
             new_id = n.data_id
         if new_data is not None and not new_data:
             return Unspec("falsy new data")
-        if new_id is not None and not new_id and new_id != n.data_id:
-            return Unspec("falsy new id")
         if new_id != n.data_id:
             for x in A:
                 K = self.kids(self.parent_of(x))
